@@ -2,7 +2,7 @@
    [write_struct], under the domain hypotheses of CacheProofs.v. *)
 From Coq Require Import Lia Sorted.
 From PG Require Import Base Mapping Spec CacheWriter CacheReader CacheStructDefs BinSearchProofs LexOrder
-  StringTableProofs MapperProofs BtLemmas WriterInv CacheProofs.
+  StringTableProofs MapperProofs BtLemmas Domain WriterInv CacheProofs.
 
 (* ------------------------------------------------------------------ *)
 (* 1. bytes of valid UTF-8, bytes of the string table                   *)
